@@ -96,16 +96,19 @@ pub fn gen_def(
                 if let Some(ret_ty) = ret_ty {
                     let name = Name::try_from(ret_ty)?;
                     let ret_ty_raises_exp = Expected::new(body.pos, &Type { name: name.clone() });
+                    let ret_ty_exp = Expected::new(ret_ty.pos, &Type { name });
+                    let body_env = body_env.return_type(&ret_ty_exp).is_expr(true);
+                    let body_env = generate(body, &body_env, ctx, constr)?;
+
+                    // the value of the body is an expression of the body: its names are those of the
+                    // body (and not equally named ones of another function)
                     constr.add(
                         "fun body type",
                         &ret_ty_raises_exp,
                         &Expected::from(body),
-                        env,
+                        &body_env,
                     );
-
-                    let ret_ty_exp = Expected::new(ret_ty.pos, &Type { name });
-                    let body_env = body_env.return_type(&ret_ty_exp).is_expr(true);
-                    generate(body, &body_env, ctx, constr)?
+                    body_env
                 } else {
                     generate(body, &body_env, ctx, constr)?
                 }
